@@ -68,6 +68,17 @@ def monitor_case(c):
         elif k == "unlive":
             live.pop(s["name"], None)
         same = prev is not None and snap(prev) == snap(cur)
+        if k == "exec" and s.get("exec_note") != "skipped":
+            b = c["steps"][i - 1].get("body") or {}
+            name = lambda t: t.split("|")[2] if t.count("|") >= 2 else t
+            if s.get("exec_note"):
+                fail("the real `start` run on the spawned command line did not complete: %s" % s["exec_note"][:200],
+                     **{"class": "real-start-failed"})
+            elif s["saw"] != s["want"] or name(s["saw_env"]) != name(s["want_env"]):
+                fail("start parameters %r given to the API: the real run started with the spawned argv %r recorded parameters %r "
+                     "(step saw NAME=%r) instead of %r (NAME=%r)" % (b.get("params"), s.get("argv"), s["saw"], name(s["saw_env"]),
+                                                                      s["want"], name(s["want_env"])),
+                     **{"class": "start-params-not-delivered"})
         if k == "details" and prev is not None and (not same or s["spawns"] or s["stops"]):
             fail("viewing a DAG changed the store", **{"class": "details-side-effect"})
         if k == "post":
@@ -236,9 +247,21 @@ def model_check(ctx, cases, texts):
 
 # ---------------------------------------------------------------------------------------------
 
+def build_real_binary(ctx):
+    """The real blackdagger binary of the tree under test (vlib.REPO), built inside the scratch copy of the harness
+    module (whose go.mod replaces the module by vlib.REPO), so that nothing is written to /repo or /verif."""
+    out_bin = os.path.join(ctx.scratch, "blackdagger")
+    rc, out, dt = vlib.sh(["go", "build", "-o", out_bin, "github.com/ErdemOzgen/blackdagger"],
+                          cwd=os.path.join(ctx.scratch, "harness"), env=vlib.env_go(), timeout=1500)
+    return (out_bin if rc == 0 else None), out
+
+
 def run_tool_cases(ctx, tool, args, seed=None):
     p = os.path.join(ctx.scratch, "api-%d.jsonl" % len(os.listdir(ctx.scratch)))
-    rc, out, dt = vlib.run_tool(tool, [p] + args, env_extra={"VERIF_SEED": str(ctx.seed if seed is None else seed)}, timeout=3000)
+    extra = {"VERIF_SEED": str(ctx.seed if seed is None else seed)}
+    if getattr(ctx, "bdbin", None):
+        extra["VERIF_BDBIN"] = ctx.bdbin
+    rc, out, dt = vlib.run_tool(tool, [p] + args, env_extra=extra, timeout=3000)
     if rc != 0 or not os.path.exists(p):
         return None, None, out
     rows = vlib.read_jsonl(p)
@@ -246,7 +269,7 @@ def run_tool_cases(ctx, tool, args, seed=None):
     return rows[0], rows[1:], out
 
 
-OBSERVED = ("dump", "code", "spawns", "stops", "diff", "note", "loc")
+OBSERVED = ("dump", "code", "spawns", "stops", "diff", "note", "loc", "argv", "saw", "saw_env", "want", "want_env", "exec_note")
 
 
 def strip(c, upto=None):
@@ -283,11 +306,24 @@ def shrink(ctx, tool, c, i, cls):
     return slim(rows[0]) if rows else slim(c, i)
 
 
+def fragment_is_truth(ctx):
+    """known_findings.d/<id>.json is the source of truth for this property's findings: the merged known_findings.json
+    may lag behind (an entry repaired since - state "fixed" - must suppress nothing)."""
+    frag = os.path.join(vlib.VERIF, "known_findings.d", ctx.pid + ".json")
+    if os.path.exists(frag):
+        ctx.known = [k for k in json.load(open(frag)) if k.get("property") == ctx.pid and k.get("state") == "known"]
+
+
 def run(ctx, replay_cases=None):
+    fragment_is_truth(ctx)
     ctx.proofs(extra=["Api/Check.vo"])
     tool, out, _ = vlib.go_build("api", ctx.scratch)
     if tool is None:
         ctx.fail("correspondence", "harness does not build against /repo", {"log": out[-2000:]})
+        return ctx.finish()
+    ctx.bdbin, bout = build_real_binary(ctx)
+    if ctx.bdbin is None:
+        ctx.fail("correspondence", "the blackdagger binary does not build from /repo", {"log": bout[-2000:]})
         return ctx.finish()
     if replay_cases is None:
         head, cases, out = run_tool_cases(ctx, tool, [ctx.tier])
@@ -343,7 +379,8 @@ def run(ctx, replay_cases=None):
 
     # ---- model -----------------------------------------------------------------------------
     good = [c for c in cases if not c.get("fatal")]
-    for c, i, code in model_check(ctx, good, texts):
+    # the realrun cases use a per-case definition text (a script path inside): monitors only
+    for c, i, code in model_check(ctx, [c for c in good if c["stream"] != "realrun"], texts):
         s = c["steps"][i]
         ctx.fail("correspondence", "model and implementation differ at step %d (%s %s %s): %s; implementation answered %d" %
                  (i, s["kind"], s.get("name", ""), (s.get("body") or {}).get("action"), CODES.get(code, code), s["code"]),
@@ -365,6 +402,7 @@ def run(ctx, replay_cases=None):
     ctx.cov["table_cells"] = sum(len(r) for r in table.values())
     ctx.cov["table_sample"] = {r: table[r] for r in list(table)[:1] + ["stop", "mark-success/req-cur/step-s1", "mark-success/req-wrong/step-s1"] if r in table}
     ctx.cov["monitor_classes_seen"] = reported
+    ctx.cov["real_start_runs"] = sum(1 for c in good for s in c["steps"] if s["kind"] == "exec" and s.get("exec_note") != "skipped")
     for c in good[:1] + good[-1:]:
         ctx.sample(slim(c))
     ctx.cov["trusted_base"] += [
@@ -372,6 +410,8 @@ def run(ctx, replay_cases=None):
         "retry_ok (exit status of the spawned retry process), tmpl, dir",
         "live agents are modelled as (request id, status) answered on the DAG's socket; socket time-outs are not modelled",
         "history at the abstract level (location -> runs -> status lines), run stamps distinct; latestStatusToday=false",
+        "start parameters end to end: for 10 parameter strings the spawned argv is executed with the real blackdagger binary built from "
+        "the tree under test (start on a one-step DAG); recorded Status.Params and the step's $NAME are compared with dag.Load of the given string",
         "handlers are called directly (the swagger layer in front of them, which rejects unknown / missing actions earlier, is bypassed)",
         "re-implemented on strings: escapeArg, removeQuotes (bytes; parameters are valid UTF-8 after JSON decoding), name -> path rules of DagStore",
     ]
